@@ -25,6 +25,7 @@ type limitedResponseWriter struct {
 	limit        int64
 	limitReached bool
 	wroteHeader  bool
+	hijacked     bool
 	statusCode   int
 	ctx          context.Context
 }
@@ -99,6 +100,7 @@ func (lrw *limitedResponseWriter) WriteHeader(statusCode int) {
 // Support http.Hijacker if underlying supports it (for websockets)
 func (lrw *limitedResponseWriter) Hijack() (net.Conn, *bufio.ReadWriter, error) {
 	if h, ok := lrw.ResponseWriter.(http.Hijacker); ok {
+		lrw.hijacked = true
 		return h.Hijack()
 	}
 	return nil, nil, http.ErrNotSupported
@@ -106,6 +108,8 @@ func (lrw *limitedResponseWriter) Hijack() (net.Conn, *bufio.ReadWriter, error) 
 
 // Support http.Flusher if underlying supports it
 func (lrw *limitedResponseWriter) Flush() {
+	// The recorded status must go out before the flush commits an implicit 200
+	lrw.ensureHeaderWritten()
 	if f, ok := lrw.ResponseWriter.(http.Flusher); ok {
 		f.Flush()
 	}
@@ -182,6 +186,12 @@ func newSizeLimitMiddleware(name string, cfg map[string]interface{}) (Middleware
 
 			// Call next handler with the limited response writer
 			next.ServeHTTP(lrw, r)
+
+			// A response without body (HEAD, 204, 304, redirects, empty errors) never
+			// reaches Write: forward the recorded status now
+			if !lrw.hijacked {
+				lrw.ensureHeaderWritten()
+			}
 		})
 	}, nil
 }
